@@ -173,11 +173,13 @@ impl vstd::std_specs::cmp::PartialEqSpecImpl for HeaderView {
 }
 impl PartialEq for HeaderView { #[verifier::external_body] fn eq(&self, o: &HeaderView) -> bool { unimplemented!() } }
 impl Eq for HeaderView {}
+pub uninterp spec fn epoch_of(number: u64, index: u64, length: u64) -> EpochNumberWithFraction;
 impl EpochNumberWithFraction {
     #[verifier::external_body]
     pub fn new(number: u64, index: u64, length: u64) -> (r: EpochNumberWithFraction)
         requires number < 0x100_0000, index < 0x1_0000, length < 0x1_0000, length > 0   // debug_assert!s in ckb-types
-        ensures r.spec_number() == number, r.spec_index() == index, r.spec_length() == length { unimplemented!() }
+        ensures r == epoch_of(number, index, length),
+                r.spec_number() == number, r.spec_index() == index, r.spec_length() == length { unimplemented!() }
     // successor relation used by HeaderUtils::is_parent_of (ckb-types, assumed as written there)
     pub open spec fn spec_is_successor_of(self, p: EpochNumberWithFraction) -> bool {
         if p.spec_index() + 1 == p.spec_length() {
